@@ -337,6 +337,25 @@ class FakePath:
             return FakePath(self.env, self.n, self.level)
         return FakePath(self.env, self.n, min(self.level + 1, self.n - 1))
 
+    @property
+    def parents(self) -> list["FakePath"]:
+        base = self.level if self.name is None else self.level - 1
+        return [FakePath(self.env, self.n, lv) for lv in range(base + 1, self.n)]
+
+    def joinpath(self, name: str) -> "FakePath":
+        return self / name
+
+    def exists(self) -> bool:
+        return self.is_file() if self.name is not None else True
+
+    def is_dir(self) -> bool:
+        return self.name is None
+
+    def __fspath__(self) -> str:
+        return "/".join(["L%d" % lv for lv in range(self.n - 1, self.level - 1, -1)] + ([self.name] if self.name else []))
+
+    __str__ = __fspath__
+
     def __eq__(self, o: Any) -> bool:
         return isinstance(o, FakePath) and (o.level, o.name) == (self.level, self.name)
 
